@@ -278,6 +278,63 @@ func shortFunc(f string) string {
 	return f
 }
 
+var debugSeq int
+
+// runDebugSession starts a dashboard debug session (POST /admin/run with debug=true), which parks a goroutine
+// waiting for debugger commands. abandon=true: the client never comes back and the session is evicted from the
+// cache (caches.Delete fires the same eviction hook as expiry); abandon=false: the client sends "continue" and the
+// program runs to its end.
+func runDebugSession(src string, abandon bool) (o outcome) {
+	debugSeq++
+	id := fmt.Sprintf("33333333-3333-4333-8333-%012d", debugSeq)
+
+	post := func(req map[string]any) (int, map[string]any) {
+		body, _ := json.Marshal(req)
+		r := httptest.NewRequest("POST", "/admin/run", bytes.NewReader(body))
+		w := httptest.NewRecorder()
+		s := &router.Session{ID: 9000 + debugSeq, User: "verif", Admin: false, Language: "en"}
+		status := admin.RunCodeHandler(s, w, r)
+
+		var resp map[string]any
+
+		_ = json.Unmarshal(w.Body.Bytes(), &resp)
+
+		return status, resp
+	}
+
+	status, resp := post(map[string]any{"code": src, "debug": true, "session": id})
+	o.Class = fmt.Sprintf("http-%d", status)
+
+	if e, _ := resp["error"].(string); e != "" {
+		o.Err = e
+	}
+
+	if waiting, _ := resp["debugWaiting"].(bool); !waiting {
+		o.Class += "-not-waiting"
+	}
+
+	if abandon {
+		if caches.Delete(caches.DebugSessionCache, id) {
+			o.Class += "-evicted"
+		}
+
+		return o
+	}
+
+	for i := 0; i < 5; i++ {
+		_, resp = post(map[string]any{"debug": true, "debugInput": "continue", "session": id})
+		if waiting, _ := resp["debugWaiting"].(bool); !waiting {
+			o.Class += "-finished"
+
+			break
+		}
+	}
+
+	caches.Delete(caches.DebugSessionCache, id)
+
+	return o
+}
+
 // crashSite returns the top ego frame (outside the harness) of a stack, and the
 // standard-library function the panic came through, if any.
 func crashSite(stack string) (site, via string) {
